@@ -82,6 +82,66 @@ type Replay struct {
 	Slow *SlowCase `json:"slow,omitempty"`
 	// mesh-conn case: Write; CloseWrite; Write on the ingress side's net.Conn
 	MeshConn bool `json:"mesh_conn,omitempty"`
+	// frames of one stream through a REAL peer connection (read loop, ordered lane,
+	// fast lane, dispatcher) with a stalled reader, FIN on the last data frame
+	RealConn *[2]int `json:"real_conn,omitempty"` // (data frames, 1 = a STREAM_CLOSE follows)
+	// CLOSE / RESET at a transit whose upstream and downstream ids differ
+	TransitLocality bool `json:"transit_locality,omitempty"`
+}
+
+func runRealConn(c *vh.Ctx, rp Replay) {
+	n, withClose := rp.RealConn[0], rp.RealConn[1] == 1
+	var o rh.RCObs
+	var err error
+	if p := vh.Recover(func() { o, err = rh.RunRealConnFin(n, withClose) }); p != "" || err != nil {
+		c.Fail("panic", fmt.Sprintf("%s: %s %v", rp.Name, p, err), rp)
+		return
+	}
+	c.Count("real-connection")
+	c.Case(fmt.Sprintf("realconn/%d/%v", n, withClose), true, rp)
+	if o.Got != o.Sent || !o.InSeq || !o.EOF {
+		c.Fail("stream-frames-overtaken-on-the-connection", fmt.Sprintf("%s: %d data frames of one stream (FIN on the last, STREAM_CLOSE after it: %v) were sent over a real peer connection while the reader was away; the reader then got %d item(s), in order: %v, end of stream: %v %s",
+			rp.Name, o.Sent, withClose, o.Got, o.InSeq, o.EOF, o.Notes), rp)
+	}
+}
+
+// close / reset tear down only the addressed stream - also at a transit, where
+// the stream has one id towards the ingress and another towards the exit
+func runTransitLocality(c *vh.Ctx, rp Replay) {
+	fr := func(from, kind int, id uint64, path []int, tag uint64) rh.Event {
+		return rh.Event{Ev: "frame", From: from, Frame: &rh.Frame{Fam: rh.TCP, Kind: kind, ID: id, Path: path, Tag: tag}}
+	}
+	sc := rh.TransitScript{Me: rh.TransitMe, Locals: []uint64{}, Events: []rh.Event{
+		{Ev: "connect", Peer: 1}, {Ev: "connect", Peer: 2}, {Ev: "connect", Peer: 3, Dialer: true},
+		fr(2, rh.KOpen, 1, []int{3}, 1), // (2,1) <-> (3,1)
+		fr(1, rh.KOpen, 1, []int{3}, 2), // (1,1) <-> (3,3)
+		fr(1, rh.KOpen, 3, []int{3}, 3), // (1,3) <-> (3,5)
+		fr(2, rh.KOpen, 3, []int{3}, 4), // (2,3) <-> (3,7)
+		fr(1, rh.KReset, 1, nil, 9),     // reset from upstream: must reach (3,3)
+		fr(3, rh.KClose, 5, nil, 0),     // close from downstream: must reach (1,3)
+		fr(3, rh.KReset, 7, nil, 8),     // reset from downstream: must reach (2,3)
+		fr(2, rh.KClose, 1, nil, 0),     // close from upstream: must reach (3,1)
+	}}
+	obs, err := rh.RunTransit(sc)
+	if err != nil {
+		c.Fail("panic", err.Error(), rp)
+		return
+	}
+	c.Count("transit-locality")
+	c.Case("transit-locality", true, rp)
+	want := []struct {
+		ev, to, kind int
+		id           uint64
+		left         int
+	}{{7, 3, rh.KReset, 3, 3}, {8, 1, rh.KClose, 3, 2}, {9, 2, rh.KReset, 3, 1}, {10, 3, rh.KClose, 1, 0}}
+	for _, w := range want {
+		o := obs[w.ev]
+		ok := len(o.Out) == 1 && o.Out[0].To == w.to && o.Out[0].Frame.Kind == w.kind && o.Out[0].Frame.ID == w.id && len(o.TCP.Down) == w.left && len(o.TCP.Up) == w.left
+		if !ok {
+			c.Fail("close-or-reset-hits-other-stream", fmt.Sprintf("%s: event %d (%+v from peer %d): the transit must forward it to peer %d stream %d only and drop exactly that relay (%d left); it sent %+v and holds %d/%d entries",
+				rp.Name, w.ev, *sc.Events[w.ev].Frame, sc.Events[w.ev].From, w.to, w.id, w.left, o.Out, len(o.TCP.Up), len(o.TCP.Down)), rp)
+		}
+	}
 }
 
 type SlowCase struct {
@@ -916,6 +976,10 @@ func TestVerif(t *testing.T) {
 			runSlow(t, c, rp)
 		case rp.MeshConn:
 			runMeshConn(c, rp)
+		case rp.RealConn != nil:
+			runRealConn(c, rp)
+		case rp.TransitLocality:
+			runTransitLocality(c, rp)
 		default:
 			runOne(rp)
 		}
@@ -971,6 +1035,14 @@ func TestVerif(t *testing.T) {
 			runSlow(t, c, Replay{Name: fmt.Sprintf("slow-reader-%d", i), Slow: &sc})
 		}
 		runMeshConn(c, Replay{Name: "meshconn-write-after-closewrite", MeshConn: true})
+		for i, v := range [][2]int{{330, 1}, {700, 0}, {400, 1}, {60, 1}} {
+			if !c.Thorough() && i == 1 {
+				continue
+			}
+			v := v
+			runRealConn(c, Replay{Name: fmt.Sprintf("real-connection-%d", i), RealConn: &v})
+		}
+		runTransitLocality(c, Replay{Name: "transit-close-reset-locality", TransitLocality: true})
 		runStress(c, Replay{Name: "fin-vs-closewrite", Stress: "closewrite", Rounds: c.N(500, 40000)})
 		runStress(c, Replay{Name: "fin-vs-close", Stress: "close", Rounds: c.N(500, 40000)})
 	}
